@@ -160,6 +160,16 @@ func TestC18Positions(t *testing.T) {
 			}
 		}
 	}
+	// no file descriptor to spare while hashing
+	for n := 0; n <= 6; n++ {
+		for _, procs := range procChoices {
+			c := ListCase{GoMaxProcs: procs, NoFds: true}
+			for i := 0; i < n; i++ {
+				c.Kinds = append(c.Kinds, []string{KRegular, KDir, KSymlink}[i%3])
+			}
+			runList(t, s, root, c, seen)
+		}
+	}
 	// empty list, single entries, lists made of directories only
 	for _, procs := range procChoices {
 		runList(t, s, root, ListCase{GoMaxProcs: procs}, seen)
@@ -207,6 +217,7 @@ func genList(t *rapid.T) ListCase {
 		}
 	}
 	c.Shared = c.Repeat == 0 && rapid.IntRange(0, 3).Draw(t, "shared") == 0
+	c.NoFds = !c.Shared && rapid.IntRange(0, 11).Draw(t, "no_fds") == 0
 	return c
 }
 
